@@ -130,6 +130,18 @@ def Op.selfData : Op → Bool
   | .setSlice a _ _ (.obj b) => a == b
   | _ => false
 
+/-- the object an operation writes (re-binds or mutates), if any -/
+def Op.target : Op → Option String
+  | .new a => some a
+  | .append a _ => some a
+  | .setByte a _ _ => some a
+  | .setSlice a _ _ _ => some a
+  | .setWord a _ _ => some a
+  | .copy _ b => some b
+  | .slice _ _ _ b => some b
+  | .concretize _ _ b => some b
+  | _ => none
+
 namespace FlatPool
 /-- pool of flat arrays; every name is initially the empty array -/
 abbrev Pool := String → Flat
